@@ -945,6 +945,8 @@ class DirectorHandler:
                 vol_paths=vol_paths,
                 ran_concurrently=self.scheduler.ran_concurrently,
             )
+            if not to_check:
+                inp_hashes = self.workflow.get_file_hashes(inp_paths)
         # The step is still running and may write the new outputs as soon as this call returns,
         # so their directories are created here rather than when the step was dispatched.
         self.workflow.create_dirs(Path(path).parent for path in chain(out_paths, vol_paths))
@@ -956,9 +958,14 @@ class DirectorHandler:
                     file = self.workflow.find(File, path)
                     if file.get_state() not in (FileState.CONFIRMED, FileState.BUILT):
                         unavailable.add(path)
+                inp_hashes = self.workflow.get_file_hashes(inp_paths)
         carry_on = len(unavailable) == 0 and len(unfresh) == 0
         if not carry_on:
             self.executor.defer(job_i, unavailable=unavailable, unfresh=unfresh)
+        else:
+            # The step is about to read these files:
+            # what they are now is what they must still be when its command ends.
+            self.executor.note_amended_inputs(job_i, inp_hashes)
         return carry_on
 
     #
